@@ -41,7 +41,7 @@ def shape_jobs(c):
                 must_have=['assertion', 'unwind'], cex_K=13, cex_unwind=16, cex_nosplit=True, weight=2)
     # single escape  \uXXXX"
     cp1 = 'QX_HEX4(content + 2)'
-    s1 = dict(buffers=[('content', 'length')], refs=['stream'], harness_setup=['g_n = 0; g_slices = 0;'],
+    s1 = dict(buffers=[('content', 'length')], refs=['stream', 'terminated'], harness_setup=['g_n = 0; g_slices = 0;'],
               requires=['length == 7', 'content[0] == %s && (content[1] == %s || content[1] == %s) && content[6] == %s' % (bs, uu, ul, q),
                         hexok(2), SCALAR % (cp1, cp1, cp1), 'g_n == 0 && g_slices == 0'],
               ensures=['__CPROVER_return_value == 7', 'g_slices == 0'] + utf_ensures(c, cp1),
@@ -51,7 +51,7 @@ def shape_jobs(c):
     # surrogate pair \uHHHH\uLLLL"
     hi, lo = 'QX_HEX4(content + 2)', 'QX_HEX4(content + 8)'
     cp2 = '(0x10000u + ((%s & 0x3FFu) << 10) + (%s & 0x3FFu))' % (hi, lo)
-    s2 = dict(buffers=[('content', 'length')], refs=['stream'], harness_setup=['g_n = 0; g_slices = 0;'],
+    s2 = dict(buffers=[('content', 'length')], refs=['stream', 'terminated'], harness_setup=['g_n = 0; g_slices = 0;'],
               requires=['length == 13', 'content[0] == %s && (content[1] == %s || content[1] == %s)' % (bs, uu, ul),
                         'content[6] == %s && (content[7] == %s || content[7] == %s) && content[12] == %s' % (bs, uu, ul, q),
                         hexok(2), hexok(8), '%s >= 0xD800u && %s <= 0xDBFFu && %s >= 0xDC00u && %s <= 0xDFFFu' % (hi, hi, lo, lo),
